@@ -1158,6 +1158,9 @@ pub fn gen_inject(seed: u64, profile: Profile, len: usize) -> Vec<String> {
             }
             out.push(format!("adv {}", r5.pick(&[1000u64, 100_000_000])));
             out.push(format!("ins {} {}", k, 5 + r5.below(4)));
+            if r5.chance(1, 2) {
+                out.push(format!("get {}", k));
+            }
             out.push(format!("adv {}", ttl - 300_000_000));
             out.push(format!("get {}", k));
             out.push(format!("has {}", k));
